@@ -12,6 +12,9 @@ def run(pid, tier, replay):
         if pid == "C13":
             from . import simcheck
             return simcheck.check(pid, tier)
+        if pid in ("C10", "C11", "C17", "C18"):
+            from . import purecheck
+            return purecheck.check(pid, tier)
         print(f"unknown property {pid}")
         return 2
     except C.BuildError as e:
